@@ -38,6 +38,13 @@ def main():
         try:
             return mod.run(a.tier)
         except Exception:
+            # one retry: a transient failure of the machinery (load, a concurrent build) must not become an alarm
+            traceback.print_exc(file=sys.stderr)
+            import time
+            time.sleep(3)
+        try:
+            return mod.run(a.tier)
+        except Exception:
             # machinery failure: report as a violation without input (the property is not shown to hold)
             traceback.print_exc()
             chk = common.Check(a.pid, a.tier)
